@@ -259,8 +259,6 @@ class Gen:
         if self.avoid:
             if self.target in ("python", "numpy"):
                 avoid_kinds.add("remainder")
-            if self.target == "cpp":
-                avoid_kinds.update(["floor"])
         kinds = [k for k in self.declared if k in KNOWN and k not in avoid_kinds]
         extra = [k for k in ("square", "hypot") if k not in self.declared]
         todo = []
@@ -375,7 +373,6 @@ def known_finding_recipes():
     R.append(dict(minimal("python", "remainder"), name="kf_py_remainder", stream="kf"))
     R.append(dict(minimal("numpy", "remainder", "float32"), name="kf_np_remainder", stream="kf"))
     R.append(dict(minimal("cpp", "remainder", "float32"), name="kf_cpp_remainder_float", stream="kf"))
-    R.append(dict(minimal("cpp", "floor", "float32"), name="kf_cpp_floor", stream="kf"))
     R.append(dict(target="python", name="kf_py_sign_select", args=[["x", "float"], ["y", "float"]],
                   nodes=[arg(0), arg(1), op("lt", 0, 1), op("select", 2, 0, 1), op("sign", 3)], root=4, refs={}, stream="kf"))
     R.append(dict(target="cpp", name="kf_cpp_max_literal", args=[["x", "float32"]],
